@@ -22,7 +22,7 @@ COMPONENTS = {"real": ["yowsup.layers.noise.layer_noise_segments.YowNoiseSegment
 ASSUMPTIONS = ["six 1.17 shim on sys.path (pinned six 1.10 cannot import protobuf on CPython 3.12)",
                "single-threaded component run: the layer has no state shared across threads; the same oracle "
                "also runs passively inside every wire-world run (C04/C11/C16)"]
-BUDGET = {"quick": (1200, 60), "thorough": (40000, 600)}
+BUDGET = {"quick": (1200, 60), "thorough": (200000, 1200)}
 FAULTS = ["tcp_cut_in_header", "tcp_cut_in_payload", "tcp_coalesce"]
 PROBES = ["cut_inside_header", "frame_ge_64k", "one_byte_chunks", "oversize_refused", "connection_lost_inside_frame"]
 SHRINK = ["frames", "partitions"]
